@@ -110,7 +110,10 @@ def oracle(case, limit_n):
     cv = np.array(c, dtype=np.int64)
     Qm = np.array(Q, dtype=np.int64).reshape(n, n)
     nodes = [(nd.get_window()[0], nd.get_window()[1]) for nd in obj.nodes]
-    strict_applies = case["strict"] and S.depot_first(case)
+    # strict-timing claim: depot-first history, and a depot self-arc that keeps a waiting vehicle inside the depot window
+    self_ok = nodes[0][1] == INF or arcd[(0, 0)][0] <= 0
+    strict_applies = case["strict"] and S.depot_first(case) and self_ok
+    info["strict_applies"] = strict_applies
     for x, W in sorted(ref.items()):
         xv = np.array(x, dtype=np.int64)
         val = int(cv @ xv + xv @ Qm @ xv)
@@ -181,6 +184,29 @@ MOVED_DEPOT = {"kind": "moved", "strict": True, "ops0": [],
                "V": 1, "L": 4, "vc": [0]}
 
 
+# second input class outside the strict-timing hypothesis: the depot self-arc overwritten with a positive travel
+# time while the depot window is finite (every depot stay then costs time)
+SLOW_SELF_ARC = {"kind": "api", "strict": True, "ops0": [],
+                 "ops1": [("node", "D", 0, 0, 4), ("node", "A", 1, 0, 4), ("depot", "D"), ("arc", "D", "D", 3, 0),
+                          ("arc", "D", "A", 0, 1), ("arc", "A", "D", 0, 1)],
+                 "V": 1, "L": 5, "vc": [0]}
+
+
+def late_walk(case):
+    obj, out = S.observe(case)
+    arcd = dict(out["arcs"])
+    nodes = [(nd.get_window()[0], nd.get_window()[1]) for nd in obj.nodes]
+    L = case["L"]
+    for W in S.walk_assignments(set(arcd), case["V"], L, out["N"]):
+        for w in W:
+            t = nodes[0][0]
+            for s in range(1, L):
+                t = max(nodes[w[s]][0], t + arcd[(w[s - 1], w[s])][0])
+                if t > nodes[w[s]][1]:
+                    return (list(w), s, t, nodes[w[s]][1])
+    return None
+
+
 def moved_depot_probe(ctx):
     """Strict mode, depot moved after arcs were stored: the walk D-A-B-D is accepted although it reaches B at
     time 11 > 5.  Reported as KNOWN-FINDING once known_findings.json lists the signature; until then it is
@@ -199,6 +225,8 @@ def moved_depot_probe(ctx):
                 late = (list(w), s, t, nodes[w[s]][1])
     ctx.cov["strict_after_moved_depot"] = {"history": MOVED_DEPOT["ops1"], "late_walk": late,
                                            "meaning": "walk, position, arrival time, window end"}
+    ctx.cov["strict_with_slow_depot_self_arc"] = {"history": SLOW_SELF_ARC["ops1"], "late_walk": late_walk(SLOW_SELF_ARC),
+                                                  "meaning": "walk, position, arrival time, window end"}
     if late and any(f.get("property") == ctx.pid and f.get("status") == "open" and f.get("signature") == sig
                     for f in ctx.findings):
         ctx.violation(sig, f"strict mode after set_depot moved the depot: walk {late[0]} arrives at time {late[2]} > {late[3]}",
@@ -211,6 +239,7 @@ def run(ctx):
     n_cases = 220 if ctx.quick else 2500
     limit_n = 14 if ctx.quick else 16
     cases, terms, passed = [], [], []
+    hyp_terms, strict_terms = [], []
     dist = collections.Counter()
     reported = set()
     seen = set()
@@ -236,6 +265,11 @@ def run(ctx):
         cases.append((case, out))
         passed.append(fail is None)
         terms.append(S.case_lit(case, out))
+        if info["applicable"]:
+            hyp_terms.append((len(cases) - 1, terms[-1]))
+            if info.get("strict_applies"):
+                strict_terms.append((len(cases) - 1, terms[-1]))
+                dist["strict-timing claim applies (strict, depot first, harmless depot self-arc)"] += 1
         dist[f"kind={case['kind']}"] += 1
         dist[f"V={case['V']}"] += 1
         dist[f"L={case['L']}"] += 1
@@ -275,6 +309,14 @@ def run(ctx):
                        "implementation": {"var_mapping": out["vars"], "constraint_data": out["con"], "objective_data": out["obj"],
                                           "get_routes": out["dec"]},
                        "model(vars, constraint_data, objective_data)": model}, False)
+    # the theorems' hypotheses, evaluated by the model on the instances the oracle treated as inside them
+    for tag, checker, sub in (("hyp", "check_hyp_case", hyp_terms), ("strict", "check_strict_case", strict_terms)):
+        mm, err = ctx.coq_mismatches(tag, S.HEADER, "scase", checker, [t for _, t in sub], shard=60)
+        for j, tags in mm[:2]:
+            case, out = cases[sub[j][0]]
+            ctx.violation(f"hypothesis/seq/{checker}", "an instance the harness treats as inside the theorems' hypotheses fails the model's "
+                          f"boolean test of them (tags {tags}: 13 seq_ok, 11 strict_graph, 12 windows_ok)",
+                          {"case": case, "checker": "Seq." + checker, "tags": tags}, False)
     if ctx.tier == "thorough":
         ctx.coqchk("VQP.C07")
 
